@@ -97,7 +97,7 @@ CLAIMED = {
          "returned POVMs attain the value; trine / BB84 / PBR families at, above and below the threshold: value 0 (hi <= 1e-7) exactly when antidistinguishable, lo > 1e-3 otherwise; is_antidistinguishable and common_quantum_overlap agree with the interval.",
          "Trusted: Lean kernel + standard axioms; Python harness; tau 2e-5 (CVXOPT). The unambiguous variant has only the weak-duality theorem and a numeric primal/dual agreement check, as the property asks. CVXOPT breakdowns on the unambiguous programs are counted (retried once with the tolerance the docstring recommends)."),
  "C15": ("Lean 4 theorems (Peres: mixtures of product states have PSD partial transpose; party irrelevance; closure of the separable class under local unitaries and swap; Gurvits-Barnum ball as an exact rational inequality) + verified lambda_min certificates and exact deciders",
-         "Kernel-checked: peres for all local dimensions and either party; executable partial transpose / local conjugation / swap equal their specs; lambda_min lower and upper certificates sound, so the PPT verdict is decided exactly whenever the certified interval is clear of -tol; a certified negative Rayleigh quotient of the partial transpose excludes separability; "
+         "Kernel-checked (34): soundness of the necessary criteria behind is_separable's 'entangled' verdicts for all local dimensions -- PPT (peres), realignment/CCNR (sum of singular values of R(rho) <= tr rho), the Zhang et al. bound, the positive-map criterion with its instances transposition, reduction and Breuer-Hall (positivity of the map proved); the Ha-Kye branch given positivity of the maps (cited); peres for all local dimensions and either party; executable partial transpose / local conjugation / swap equal their specs; lambda_min lower and upper certificates sound, so the PPT verdict is decided exactly whenever the certified interval is clear of -tol; a certified negative Rayleigh quotient of the partial transpose excludes separability; "
          "the separable class is closed under (U (x) V) and party exchange (so invariance of a correct verdict is meaningful); in_separable_ball's mirror equals (n-1)||M||_F^2 <= (tr M)^2. Per run: is_ppt / is_npt on states with exact structure vs certified lambda_min of the exact partial transpose; is_separable never rejects exact mixtures of rational product states, never accepts "
          "certified NPT states, agrees with PPT for dA dB <= 6, invariant under local rational unitaries and swap, with the deciding return statement traced (sys.monitoring) for branch coverage; in_separable_ball vs the exact decision; has_symmetric_extension accepts separable constructions.",
          "Trusted: Lean kernel + standard axioms; Python harness. Cited: soundness of toqito's sufficient separability criteria, PPT sufficiency for dA dB <= 6. Known findings: has_symmetric_extension's SDP branch is constantly False; is_separable's late stages (Breuer-Hall / final symmetric-extension stage) reject separable states or raise."),
